@@ -349,6 +349,8 @@ def run_x86(desc, calls, level, refs, tag):
 def run_case(case, stats=None, exclude=False):
     """exclude=True (the search): executions that reach an open finding's run-time exclusion are not evaluated"""
     desc, calls = case["module"], case["calls"]
+    if case.get("target") == "arm" and not arm_available():
+        raise Discard("arm: the emulator vf/arm32.py did not pass its self-check")
     refs = reference(desc, calls, stats, target=case.get("target", "x86_64") if exclude else None)
     defined = sum(1 for r in refs if r is not None)
     if not defined:
@@ -358,6 +360,8 @@ def run_case(case, stats=None, exclude=False):
     for level in case.get("levels", LEVELS):
         if target == "x86_64":
             msg = run_x86(desc, calls, level, refs, "x%s" % level)
+        elif target == "arm":
+            msg = run_arm(desc, calls, level, refs, stats)
         else:
             msg = run_riscv(desc, calls, level, refs, target)
         if msg:
@@ -394,6 +398,43 @@ def run_riscv(desc, calls, level, refs, target):
         d = irsem.obs_equal(ref, got)
         if d:
             return "-O%s %s%r: %s machine code vs IR semantics: %s" % (level, fname, args, target, d)
+    return None
+
+
+def run_arm(desc, calls, level, refs, stats=None):
+    """arm (A32) through the emulator vf/arm32.py (helper vf/props/c05_arm.py)."""
+    from . import c05_arm
+
+    m = genir.build(desc)
+    try:
+        prog = c05_arm.compile_ir(m, level)
+    except c05_arm.CompileError as e:
+        if e.missing:
+            raise Discard("arm: cannot be linked, ppci has no runtime routine %s" % e.missing)
+        raise Discard("code generation fails (C29): %s" % str(e)[:80])
+    except c05_arm.Unsupported as e:
+        raise Discard("arm glue: %s" % str(e)[:60])
+    byname = {f["name"]: f for f in desc["functions"]}
+    for (fname, args), ref in zip(calls, refs):
+        if ref is None:
+            continue
+        f = byname[fname]
+        bufs = [bytes(range(16, 32))] * genir.nbufs(f)
+        a = genir.decode_args(args)
+        try:
+            got = prog.run(fname, a, buffers=bufs)
+        except c05_arm.Unsupported:
+            continue
+        except c05_arm.ExecError as e:
+            if e.kind == "unsupported":
+                # a valid encoding outside the emulator (VFP, exclusive access, ...): nothing is known, nothing is claimed
+                if stats is not None:
+                    stats.discard("arm: instruction outside the emulator")
+                continue
+            return "-O%s %s%r on arm: emulated execution stopped (%s: %s); IR interpreter returns %r" % (level, fname, args, e.kind, str(e)[:120], ref["ret"])
+        d = irsem.obs_equal(ref, got)
+        if d:
+            return "-O%s %s%r: arm machine code vs IR semantics: %s" % (level, fname, args, d)
     return None
 
 
@@ -610,6 +651,10 @@ BASE_PROFILES = {
     "riscv": genir.target_profile("riscv", **_RV_KW),
     "riscv:rvc": genir.target_profile("riscv:rvc", **_RV_KW),
 }
+# vf/data/optable.json was measured before the C29 repairs f26d8b3 / de2fcd1 / fd653cf; these compile for arm now
+ARM_NOW_SUPPORTED = [("binop", "u8", "-")] + [("cast", s_, d_) for s_ in ("i8", "u8", "i16", "u16") for d_ in ("i8", "u8", "i16", "u16") if genir.BITS[s_] != genir.BITS[d_]]
+_ARM_BASE = genir.target_profile("arm", **_RV_KW)
+BASE_PROFILES["arm"] = genir.Profile(**dict(_ARM_BASE.__dict__, forbidden=set(_ARM_BASE.forbidden) - set(ARM_NOW_SUPPORTED)))
 PROFILES = BASE_PROFILES  # (name kept for scripts)
 _PROFILE_CACHE = {}
 
@@ -636,6 +681,16 @@ def riscv_available():
         from . import c05_riscv  # noqa: F401
 
         return True
+    except Exception:
+        return False
+
+
+def arm_available():
+    """the ARM part runs only when vf/arm32.py passes its own (cached) self-check; otherwise it is dropped with a note"""
+    try:
+        from . import c05_arm
+
+        return c05_arm.available()[0]
     except Exception:
         return False
 
